@@ -367,6 +367,9 @@ type session struct {
 	retainedB []retainedBytes
 	// route, when set, selects the per-connection session a callback belongs to
 	route func(addr string) *session
+	// decls: the application builds the declaration (parameter types) of a statement text once and hands the
+	// same slice to every Parse of that text, on whichever connection: the library only reads it
+	decls sync.Map
 }
 
 // of returns the session the callback with this context belongs to.
@@ -859,7 +862,8 @@ func (s0 *session) parseFn(ctx context.Context, query string) (wire.PreparedStat
 			s.ctxs = append(s.ctxs, ctx)
 			return s.runStmt(ctx, st, w, params)
 		}
-		opts := []wire.PreparedOptionFn{wire.WithParameters(st.params)}
+		shared, _ := s0.decls.LoadOrStore(query+"#"+strconv.Itoa(idx), st.params)
+		opts := []wire.PreparedOptionFn{wire.WithParameters(shared.([]oid.Oid))}
 		if len(cols) > 0 {
 			opts = append(opts, wire.WithColumns(cols))
 		}
